@@ -631,13 +631,27 @@ func q3Charge(p *Prog, o *obls, cons *ssa.Function, qs queueSpec) {
 				charged = true
 			}
 		})
+		// the budget must be re-read from the limiter for every packet: the Budget call lies inside the innermost loop
+		// around the write (a value read once before the loop goes stale when the rate is changed concurrently)
+		var inner map[*ssa.BasicBlock]bool
+		for _, body := range naturalLoops(cons) {
+			if body[w.Block()] && (inner == nil || len(body) < len(inner)) {
+				inner = body
+			}
+		}
 		for _, f := range dominatingFactsInstr(w) {
-			if p.backwardReaches(f.cond, func(v ssa.Value) bool { return isLimiterCall(v, "Budget", "Tokens", "TokensAt") }) {
+			if p.backwardReaches(f.cond, func(v ssa.Value) bool {
+				if !isLimiterCall(v, "Budget", "Tokens", "TokensAt") {
+					return false
+				}
+				c := v.(*ssa.Call)
+				return inner == nil || inner[c.Block()]
+			}) {
 				tested = true
 			}
 		}
 		if !tested {
-			bad = append(bad, fmt.Sprintf("the write at %s is not guarded by a test of the limiter's budget", p.instrPos(w)))
+			bad = append(bad, fmt.Sprintf("the write at %s is not guarded by a test of the limiter's budget read for this packet (inside the per-packet loop): bits can be released against a stale budget", p.instrPos(w)))
 		}
 		if !charged {
 			bad = append(bad, fmt.Sprintf("the write at %s is not preceded by a charge of the limiter (AllowN): bits are released without being accounted, the rate bound does not hold", p.instrPos(w)))
